@@ -1052,7 +1052,6 @@ func checkC15Algebra(res *Result, pkgs []*packages.Package) {
 	res.check(firstSub == token.NoPos || lastUnion < firstSub, "C15-R4", "TypeGenerator.allProperties", pos, "no property is added after the first removal (withheld properties cannot re-enter)", "a union follows a removal; sequence is "+strings.Join(seq, ", "))
 }
 
-
 // appendsFollowedBySortingCallee: every `x = append(x, …)` in the loop body is followed, in
 // the same block, by `x = getAllChildrenExtendedBy(x, …)` — the callee that sorts the whole
 // slice before returning it (its sort is a witness of C15-R3) — and there is at least one.
@@ -1087,7 +1086,6 @@ func appendsFollowedBySortingCallee(rs *ast.RangeStmt) bool {
 	})
 	return okC && n > 0
 }
-
 
 // C15-R7 — Converter.allExtendsAreIn answers "every parent of this type has been converted".
 // For a parent of the vocabulary being converted the answer can only be given after all parents
